@@ -623,6 +623,31 @@ def search_domain(rep, idx):
                 positional.append((g, n, "bisection"))
             if isinstance(n, ast.Call) and isinstance(n.func, ast.Attribute) and n.func.attr == "index" and n.args:
                 positional.append((g, n, "list.index()"))
+    # an early `break` out of the loop over the candidates: the names after it are never compared
+    for g in closure:
+        binds = {}
+        for n in ast.walk(g.node):
+            if isinstance(n, ast.Assign) and len(n.targets) == 1 and isinstance(n.targets[0], ast.Name):
+                binds.setdefault(n.targets[0].id, []).append(n.value)
+
+        def mentions_store(e, depth=0):
+            for x in ast.walk(e):
+                if isinstance(x, ast.Attribute) and isinstance(x.value, ast.Name) and x.value.id == "self" and cls.method(x.attr) is None:
+                    return True
+                if isinstance(x, ast.Name) and x.id in binds and depth < 2 and any(mentions_store(v, depth + 1) for v in binds[x.id]):
+                    return True
+            return False
+        par = {}
+        for n in ast.walk(g.node):
+            for ch in ast.iter_child_nodes(n):
+                par[ch] = n
+        for loop in [n for n in ast.walk(g.node) if isinstance(n, ast.For) and mentions_store(n.iter)]:
+            for b in [n for n in ast.walk(loop) if isinstance(n, ast.Break)]:
+                x = b
+                while x in par and not isinstance(par[x], (ast.For, ast.While)):
+                    x = par[x]
+                if par.get(x) is loop:
+                    positional.append((g, b, "an early `break` out of the scan of the (sorted) candidates"))
     str_keys = [n for fs in cls.methods.values() for f in fs for n in ast.walk(f.node)
                 if isinstance(n, (ast.GeneratorExp, ast.ListComp)) and isinstance(n.elt, ast.Call) and isinstance(n.elt.func, ast.Name) and
                 n.elt.func.id == "str"]
